@@ -84,6 +84,7 @@ def gen_plan(seed, index, tier):
         "stall_rerun": rng.random() < 0.25,
         "yform": rng.choice(["nd", "nd", "list", "series"]), "gform": rng.choice(["nd", "nd", "list", "series"]),
         "scramble_index": rng.random() < 0.4,
+        "nested": (not kind.startswith("BGL")) and rng.random() < 0.3,
     }
     plan["twin_perm"] = rng.sample(range(len(rows)), len(rows)) if (index >= 50 and not kind.startswith("BGL") and rng.random() < 0.2) else None
     # history: an earlier fit of the same GridSearch object on the same X with other labels/groups
@@ -122,6 +123,8 @@ def fit_once(plan, ctx, stall=False):
         est = seams.ExactRegressor(col=0, loss="square" if plan["moment"] == "BGL_square" else "abs")
     else:
         est = seams.ExactClassifier(col=0, proba=plan["proba"])
+        if plan.get("nested"):
+            est = seams.NestedPeer(est)  # composite peer: fit trains a nested learner in place
     gs = GridSearch(est, make_constraints(plan), constraint_weight=plan["cw"], grid_size=plan["grid_size"],
                     grid_limit=plan["grid_limit"])
     ctx.ties.pos = 0
@@ -228,6 +231,7 @@ def execute(plan, ctx):
     objs_ref, gam_ref = [], []
     for j, c in enumerate(cols):
         pred_obj = gs.predictors_[j]
+        pred_obj = getattr(pred_obj, "inner", pred_obj)  # composite peers: the nested learner is the recording one
         if regression:
             lam = {str(i): float(v) for i, v in lam_df[c].items()}
             w_ref = ref.weights(lam)
@@ -321,7 +325,7 @@ def execute(plan, ctx):
     # ---- 6. delegation ------------------------------------------------------------
     Xq = build_X(plan["xq"], plan["xform"])
     best_obj = gs.predictors_[bi]
-    is_peer = id(best_obj) in by_obj
+    is_peer = id(getattr(best_obj, "inner", best_obj)) in by_obj
     ctx.log_predicts = True
     ctx.predict_log = []
     ok, out, site = ctx.call(gs.predict, Xq)
@@ -334,7 +338,7 @@ def execute(plan, ctx):
         ctx.log_predicts = False
         expect = np.asarray(best_obj.predict(Xq))
         ctx.log_predicts = True
-        if len(log) != (1 if is_peer else 0) or (is_peer and log[0]["obj"] is not best_obj):
+        if len(log) != (1 if is_peer else 0) or (is_peer and log[0]["obj"] is not getattr(best_obj, "inner", best_obj)):
             ctx.fail("C09.delegation", f"predict was served by {[e['inst'] for e in log]}, expected exactly the predictor at best_idx_={bi}")
         elif is_peer and log[0]["x"] != [seams._key(float(v)) for v in plan["xq"]]:
             ctx.fail("C09.delegation", "the selected peer did not receive the query rows unchanged")
@@ -350,7 +354,7 @@ def execute(plan, ctx):
         else:
             ctx.log_predicts = False
             expect = best_obj.predict_proba(Xq)
-            if len(log) != 1 or log[0]["obj"] is not best_obj or log[0]["method"] != "predict_proba":
+            if len(log) != 1 or log[0]["obj"] is not getattr(best_obj, "inner", best_obj) or log[0]["method"] != "predict_proba":
                 ctx.fail("C09.delegation", "predict_proba was not served exactly once by the selected predictor")
             if not np.array_equal(np.asarray(out), expect):
                 ctx.fail("C09.delegation", "predict_proba output is not the selected predictor's reply")
@@ -443,3 +447,5 @@ def shrink_candidates(plan):
         yield mod(bound_kind="diff", ratio=1.0)
     if p["proba"]:
         yield mod(proba=False)
+    if p.get("nested"):
+        yield mod(nested=False)
